@@ -25,6 +25,8 @@ warning:
   - v-two-kinds
   - v-lookalike
   - v-rego-twins
+  - v-ext
+  - v-linebreak
 info:
   - i-shapes
 validations:
@@ -63,6 +65,18 @@ validations:
       - propertyConstraints:
           ex.w9:
             minCount: 1
+  v-ext:
+    targetClass: ex.T
+    message: the wadus extension is mandatory
+    propertyConstraints:
+      apiExt.wadus:
+        minCount: 1
+  v-linebreak:
+    targetClass: ex.T
+    message: "a message that ends with a line break\n"
+    propertyConstraints:
+      ex.q:
+        pattern: "^[a-z,]+$"
   v-rego-twins:
     targetClass: ex.T
     message: two embedded checks that differ in nothing but their code
@@ -172,7 +186,10 @@ def _wide_nodes():
 
 
 RICH_DATA = json.dumps(_wide_nodes() + [
-    {"@id": "http://example.org/look1", "@type": ["http://example.org/ns#T"], "http://example.org/ns#q": "ok,fine", "http://example.org/ns#p": "x"},
+    {"@id": "http://example.org/look1", "@type": ["http://example.org/ns#T"], "http://example.org/ns#q": "ok,fine", "http://example.org/ns#p": "x",
+     "http://a.ml/vocabularies/document#customDomainProperties": [{"@id": "amf://id#ext-link-1"}], "amf://id#ext-link-1": {"@id": "http://example.org/ext1"}},
+    {"@id": "http://example.org/ext1", "@type": ["http://a.ml/vocabularies/data#Scalar"], "http://a.ml/vocabularies/core#extensionName": "wadus",
+     "http://a.ml/vocabularies/data#value": "true"},
     {"@id": "http://example.org/look2", "@type": ["http://example.org/ns#T"], "http://example.org/ns#q": "fine", "http://example.org/ns#p": "x",
      "http://example.org/ns#low": 4.0000003},
     {"@id": "http://example.org/look3", "@type": ["http://example.org/ns#T"], "http://example.org/ns#q": "none", "http://example.org/ns#p": "x",
@@ -236,9 +253,9 @@ def run(tier):
             singles = [("permute:" + o, k) for o in ("top", "validations", "validation", "propertyConstraints", "constraints",
                                                      "prefixes", "levelList", "operands") for k in (1, 2, 3)]
             singles += [("style:" + st, k) for st in ("quote", "flow", "comments", "blank", "indent") for k in (1, 2)]
-            singles += [("rename", 1), ("rename", 2), ("alias", 1), ("alias", 2), ("builtinAlias", 1), ("redeclare", 1)]
+            singles += [("rename", 1), ("rename", 2), ("alias", 1), ("alias", 2), ("builtinAlias", 1), ("builtinAlias", 2), ("redeclare", 1)]
             for si, (op, arg) in enumerate(singles):
-                for sd in range(10 if op in ("rename", "alias") else 2):
+                for sd in range(10 if op in ("rename", "alias", "builtinAlias") else (6 if op == "style:quote" else 2)):
                     rows.append({"id": "b%04d/s%03d_%d" % (bi, si, sd), "profile": p, "data": d, "walk": [{"op": op, "arg": arg}],
                                  "seed": sd * 7919 + si})
     obs = vlib.run_harness("respell", rows, "c15", timeout=3000)
